@@ -67,15 +67,20 @@ EvictOK == EvictOnlyWhenOver /\ EvictPost /\ EvictStopsAtTarget /\ EvictOrder /\
 \* "racy": blocked callers ran between this step and its projection; the projection then belongs to
 \* a later line and is not compared here
 Racy == F(Line, "racy", FALSE)
+\* An eviction / cleanup decision that differs from the specification's explains any content or
+\* counter difference on the same line, so it is reported alone.
 Cats(dataOK, evictOK) ==
-    (IF dataOK /\ (Racy \/ EntsMatch) THEN {} ELSE {"data"})
-    \cup (IF Racy \/ (CountersMatch /\ (QuiescentNext => FilesMatch)) THEN {} ELSE {"counters"})
-    \cup (IF evictOK /\ EvictOK' /\ (Racy \/ LimitMatch) THEN {} ELSE {"evict"})
+    IF ~(evictOK /\ EvictOK' /\ (Racy \/ LimitMatch)) THEN {"evict"}
+    ELSE (IF dataOK /\ (Racy \/ EntsMatch) THEN {} ELSE {"data"})
+         \cup (IF Racy \/ (CountersMatch /\ (QuiescentNext => FilesMatch)) THEN {} ELSE {"counters"})
 
 Consume(dataOK, evictOK) ==
     /\ l' = l + 1
     /\ LET c == Cats(dataOK, evictOK)
-       IN bad' = IF bad.line = 0 /\ c # {} THEN [line |-> l, cats |-> c] ELSE bad
+       IN bad' = IF bad.line = 0 /\ c # {}
+                 THEN [line |-> l, cats |-> c, m_entries |-> entries', m_bytes |-> bytes', m_count |-> count',
+                       m_lastEv |-> lastEv', m_jan |-> jan', m_lock |-> lock']
+                 ELSE bad
     /\ TLCSet(1, [l |-> l + 1, bad |-> bad'])
 
 Skip == /\ l' = l + 1 /\ UNCHANGED <<vars, bad>> /\ TLCSet(1, [l |-> l + 1, bad |-> bad])
@@ -239,7 +244,9 @@ TJanRemove ==
     /\ Is("jremove") /\ Res \in {"gate", "done"} /\ GateKind(FromGate) = "clean_visit"
     /\ JanRemove(GateKey(FromGate))
     /\ Consume(TRUE, /\ NextGateOK
-                     /\ (GateKey(FromGate) \in SkipKeys("clean_skip")) = (lastEv'.kind = "skip"))
+                     /\ (GateKey(FromGate) \in SkipKeys("clean_skip")) = (lastEv'.kind = "skip")
+                     \* the real janitor removed the key iff the specification's janitor does
+                     /\ Racy \/ (SnapEnt(GateKey(FromGate)).present = entries'[GateKey(FromGate)].present))
 
 TJanEnsure ==
     /\ Is("ensure") /\ Res \in {"gate", "done"} /\ GateKind(FromGate) = "clean_done"
@@ -249,7 +256,8 @@ TJanEnsure ==
 TJanEvict ==
     /\ Is("evstep") /\ Res \in {"gate", "done"} /\ GateKind(FromGate) = "evict_visit"
     /\ JanEvictVisit(GateKey(FromGate))
-    /\ Consume(TRUE, NextGateOK)
+    /\ Consume(TRUE, /\ NextGateOK
+                     /\ Racy \/ (SnapEnt(GateKey(FromGate)).present = entries'[GateKey(FromGate)].present))
 
 \* steps the driver could not perform (schedule and real execution diverged): no state change
 TNoop ==
